@@ -15,14 +15,14 @@ theorem replaceKids_append_of_nodup (c : Nat) (g : HTree → List HTree) (a b : 
   | nil => simp [replaceKids]
   | cons k a' ih =>
     have nd' : (handlesList (a' ++ b)).Nodup := by
-      simp only [List.cons_append, handlesList_cons] at nd
+      simp only [List.cons_append, fi_handlesList_cons] at nd
       exact (List.nodup_append.mp nd).2.1
     rw [List.cons_append, replaceKids_cons, replaceKids_cons]
     by_cases hk : k.handle = c
     · rw [if_pos hk, if_pos hk]
       have hb : c ∉ handlesList b := by
         intro hc
-        simp only [List.cons_append, handlesList_cons, fi_handlesList_append] at nd
+        simp only [List.cons_append, fi_handlesList_cons, fi_handlesList_append] at nd
         have := (List.nodup_append.mp nd).2.2 c (hk ▸ fi_handle_mem_handles k) c (by simp [hc])
         exact this rfl
       rw [replaceKids_of_not_mem c g b hb]
@@ -31,22 +31,22 @@ theorem replaceKids_append_of_nodup (c : Nat) (g : HTree → List HTree) (a b : 
       simp
 
 /-- Apply `F` to the sibling lists of a frame. -/
-def Frame.mapKids (F : List HTree → List HTree) (fr : Frame) : Frame := ⟨F fr.l, fr.h, fr.v, F fr.r⟩
+def ZipFrame.mapKids (F : List HTree → List HTree) (fr : ZipFrame) : ZipFrame := ⟨F fr.l, fr.h, fr.v, F fr.r⟩
 
-@[simp] theorem Frame.mapKids_h (F : List HTree → List HTree) (fr : Frame) : (fr.mapKids F).h = fr.h := rfl
-@[simp] theorem Frame.mapKids_v (F : List HTree → List HTree) (fr : Frame) : (fr.mapKids F).v = fr.v := rfl
+@[simp] theorem ZipFrame.mapKids_h (F : List HTree → List HTree) (fr : ZipFrame) : (fr.mapKids F).h = fr.h := rfl
+@[simp] theorem ZipFrame.mapKids_v (F : List HTree → List HTree) (fr : ZipFrame) : (fr.mapKids F).v = fr.v := rfl
 
-theorem innerValue_map_mapKids (F : List HTree → List HTree) (path : List Frame) :
-    innerValue (path.map (Frame.mapKids F)) = innerValue path := by
+theorem innerValue_map_mapKids (F : List HTree → List HTree) (path : List ZipFrame) :
+    innerValue (path.map (ZipFrame.mapKids F)) = innerValue path := by
   unfold innerValue
   rw [List.getLast?_map]
   cases path.getLast? <;> rfl
 
 /-- `replaceKids c g` on a plugged forest when `c` is none of the path's nodes. -/
-theorem replaceKids_plug_off (c : Nat) (g : HTree → List HTree) (path : List Frame) (ks : List HTree)
+theorem replaceKids_plug_off (c : Nat) (g : HTree → List HTree) (path : List ZipFrame) (ks : List HTree)
     (nd : (handlesList (plug path ks)).Nodup) (hoff : ∀ fr ∈ path, fr.h ≠ c) :
     replaceKids c g (plug path ks) =
-      plug (path.map (Frame.mapKids (replaceKids c g))) (replaceKids c g ks) := by
+      plug (path.map (ZipFrame.mapKids (replaceKids c g))) (replaceKids c g ks) := by
   induction path with
   | nil => rfl
   | cons fr rest ih =>
@@ -56,7 +56,7 @@ theorem replaceKids_plug_off (c : Nat) (g : HTree → List HTree) (path : List F
     have nd2 : (handlesList (HTree.node fr.h fr.v (plug rest ks) :: fr.r)).Nodup :=
       (List.nodup_append.mp nd1).2.1
     have nd3 : (handlesList (plug rest ks)).Nodup := by
-      simp only [handlesList_cons, handles_node, List.cons_append] at nd2
+      simp only [fi_handlesList_cons, fi_handles_node, List.cons_append] at nd2
       have := (List.nodup_cons.mp nd2).2
       exact (List.nodup_append.mp this).1
     rw [replaceKids_append_of_nodup c g _ _ nd, replaceKids_cons,
@@ -67,7 +67,7 @@ theorem replaceKids_plug_off (c : Nat) (g : HTree → List HTree) (path : List F
 /-- Remove the node `c` from a child list / from below a tree (what `cut` does). -/
 abbrev rk (c : Nat) : List HTree → List HTree := replaceKids c (fun _ => [])
 abbrev rb (c : Nat) : HTree → HTree := replaceBelow c (fun _ => [])
-abbrev cutPath (c : Nat) (path : List Frame) : List Frame := path.map (Frame.mapKids (rk c))
+abbrev cutPath (c : Nat) (path : List ZipFrame) : List ZipFrame := path.map (ZipFrame.mapKids (rk c))
 
 namespace Forest
 
@@ -140,9 +140,9 @@ theorem mem_subtree_of_anc {f : Forest} {c x : Nat} {path l C r} (lc : Loc f.roo
     have e1 := get?_of_loc lc nd
     have e2 := get?_of_loc lc2 nd
     rw [e1] at e2; cases e2
-    rw [handles_node]
+    rw [fi_handles_node]
     refine List.mem_cons_of_mem _ (mem_handlesList_plug.mpr (Or.inr ?_))
-    simp only [fi_handlesList_append, handlesList_cons, List.mem_append]
+    simp only [fi_handlesList_append, fi_handlesList_cons, List.mem_append]
     exact Or.inr (Or.inl (locx.hk ▸ fi_handle_mem_handles X))
 
 end Forest
